@@ -11,8 +11,8 @@ every lane independently, so they are modelled as one pure function per 8-bit la
 `strideDword`) and mapped over the vector; the two cross-lane operations are index permutations
 (`shuffleEpi8`, `permutevar8x32`).  The byte constants of the range translations, both shuffle
 tables, the loop bounds, the fill / padding characters come from the generated layer
-`Gen/CodecAvx2Consts.lean` (re-extracted from the source on every run); the masks and shift
-counts of `pack_vec` / `encode_stride` are transcribed by hand.
+`Gen/CodecAvx2Consts.lean` (re-extracted from the source on every run), as do the masks and shift
+counts of `pack_vec` / `encode_stride`.
 
 **Trusted: the meaning given to the intrinsics** (Intel Intrinsics Guide):
 * `_mm256_set1_epi8(c)` / `_mm256_set1_epi32(c)`: every 8-bit / 32-bit lane = `c`.
@@ -80,25 +80,24 @@ def mapDwords (f : Nat → Nat) : List Nat → List Nat
   | b0 :: b1 :: b2 :: b3 :: rest => bytesOf (f (dwordOf b0 b1 b2 b3)) ++ mapDwords f rest
   | _ => []
 
-/-- the mask / shift / or part of `pack_vec` on one dword `00DDDDDD 00CCCCCC 00BBBBBB 00AAAAAA` -/
-def packDword (d : Nat) : Nat :=
-  let bitsA := ((d &&& 0xFF) <<< 18) % 2^32            -- `_mm256_slli_epi32(_mm256_and_si256(in, maskA), 18)`
-  let bitsB := ((d &&& 0xFF00) <<< 4) % 2^32           -- `… maskB), 4)`
-  let bitsC := (d &&& 0xFF0000) >>> 10                 -- `_mm256_srli_epi32(… maskC), 10)`
-  let bitsD := (d &&& 0xFF000000) >>> 24               -- `… maskD), 24)`
-  (bitsA ||| bitsB) ||| (bitsC ||| bitsD)
+/-- one masked and shifted part: `_mm256_s[lr]li_epi32(_mm256_and_si256(x, mask), count)` on one 32-bit lane;
+`(mask, 1 = slli / 0 = srli, count)` comes from the generated layer -/
+def laneOp (x : Nat) (op : Nat × Nat × Nat) : Nat :=
+  if op.2.1 == 1 then ((x &&& op.1) <<< op.2.2) % 2^32 else (x &&& op.1) >>> op.2.2
 
-/-- the mask / shift / or part of `encode_stride` on one dword holding a 24-bit group -/
+/-- the mask / shift / or part of `pack_vec` on one dword `00DDDDDD 00CCCCCC 00BBBBBB 00AAAAAA`:
+`(bitsA | bitsB) | (bitsC | bitsD)` -/
+def packDword (d : Nat) : Nat :=
+  match packOps with
+  | [a, b, c, e] => (laneOp d a ||| laneOp d b) ||| (laneOp d c ||| laneOp d e)
+  | _ => 0
+
+/-- the mask / shift / or part of `encode_stride` on one dword holding a 24-bit group:
+`(digit0 | digit1) | (digit2 | digit3)` -/
 def strideDword (vec : Nat) : Nat :=
-  let digit0 := vec &&& 0x3F
-  let digit1 := vec &&& (0x3F <<< 6)
-  let digit2 := vec &&& (0x3F <<< 12)
-  let digit3 := vec &&& (0x3F <<< 18)
-  let digit0 := (digit0 <<< 24) % 2^32                 -- `_mm256_slli_epi32(digit0, 24)`
-  let digit1 := (digit1 <<< 10) % 2^32
-  let digit2 := digit2 >>> 4
-  let digit3 := digit3 >>> 18
-  (digit0 ||| digit1) ||| (digit2 ||| digit3)
+  match strideOps with
+  | [a, b, c, e] => (laneOp vec a ||| laneOp vec b) ||| (laneOp vec c ||| laneOp vec e)
+  | _ => 0
 
 /-! ## cross-lane permutations -/
 
